@@ -220,8 +220,12 @@ def run_pipeline(harness, cases, timeout=1800):
     threads = []
     if slow:
         import threading
-        k = min(len(slow), int(os.environ.get("VERIF_PAR", "12")))
-        chunks = [slow[j::k] for j in range(k)]
+        # a command line that sets up the process-wide metrics instance (push gateway / static labels) gets a process
+        # of its own: that instance is built once per process, by the first command that runs in it
+        solo = [i for i in slow if cases[int(i)].startswith("cli ") and " pushgw=" in cases[int(i)]]
+        slow_shared = [i for i in slow if i not in set(solo)]
+        k = max(1, min(len(slow_shared), int(os.environ.get("VERIF_PAR", "12"))))
+        chunks = [c for c in (slow_shared[j::k] for j in range(k)) if c] + [[i] for i in solo]
 
         def work(chunk):
             sub = "".join("%s %s\n" % (i, cases[int(i)]) for i in chunk)
@@ -234,8 +238,13 @@ def run_pipeline(harness, cases, timeout=1800):
                         slow_results[parts[0]] = parts[1]
             except subprocess.TimeoutExpired:
                 pass
+        sem = threading.Semaphore(int(os.environ.get("VERIF_PAR", "12")) + 4)
+
+        def gated(chunk):
+            with sem:
+                work(chunk)
         for ch in chunks:
-            t = threading.Thread(target=work, args=(ch,))
+            t = threading.Thread(target=gated, args=(ch,))
             t.start()
             threads.append(t)
     p = subprocess.run([harness], input=fast_inp, stdout=subprocess.PIPE, stderr=subprocess.PIPE,
